@@ -368,6 +368,142 @@ def check_corpus(ctx):
                 break
 
 
+# ------------------------------------------------------------------ xs:redefine / xs:override: location spellings and splits of the base
+RD_HEAD = ('<xs:schema xmlns:xs="http://www.w3.org/2001/XMLSchema" targetNamespace="urn:c09r" xmlns:t="urn:c09r" '
+           'elementFormDefault="qualified">')
+RD_BASE = {
+    'T': '<xs:complexType name="T"><xs:sequence><xs:element name="a" type="t:ST"/><xs:group ref="t:G" minOccurs="0"/></xs:sequence>'
+         '<xs:attributeGroup ref="t:AG"/></xs:complexType>',
+    'ST': '<xs:simpleType name="ST"><xs:restriction base="xs:string"><xs:maxLength value="5"/></xs:restriction></xs:simpleType>',
+    'G': '<xs:group name="G"><xs:sequence><xs:element name="g" type="xs:int"/></xs:sequence></xs:group>',
+    'AG': '<xs:attributeGroup name="AG"><xs:attribute name="p" type="xs:int"/></xs:attributeGroup>',
+    'root': '<xs:element name="root" type="t:T"/>',
+}
+RD_REDEF = {
+    'T': '<xs:complexType name="T"><xs:complexContent><xs:extension base="t:T"><xs:sequence><xs:element name="b" type="xs:int"/>'
+         '</xs:sequence></xs:extension></xs:complexContent></xs:complexType>',
+    'ST': '<xs:simpleType name="ST"><xs:restriction base="t:ST"><xs:maxLength value="2"/></xs:restriction></xs:simpleType>',
+    'G': '<xs:group name="G"><xs:sequence><xs:group ref="t:G"/><xs:element name="h" type="xs:int"/></xs:sequence></xs:group>',
+    'AG': '<xs:attributeGroup name="AG"><xs:attributeGroup ref="t:AG"/><xs:attribute name="q" type="xs:int"/></xs:attributeGroup>',
+}
+RD_OVER = {
+    'T': '<xs:complexType name="T"><xs:sequence><xs:element name="a" type="t:ST"/><xs:element name="b" type="xs:int"/></xs:sequence>'
+         '<xs:attributeGroup ref="t:AG"/></xs:complexType>',
+    'ST': '<xs:simpleType name="ST"><xs:restriction base="xs:string"><xs:maxLength value="2"/></xs:restriction></xs:simpleType>',
+    'G': '<xs:group name="G"><xs:sequence><xs:element name="g" type="xs:int"/><xs:element name="h" type="xs:int"/></xs:sequence></xs:group>',
+    'AG': '<xs:attributeGroup name="AG"><xs:attribute name="p" type="xs:int"/><xs:attribute name="q" type="xs:int"/></xs:attributeGroup>',
+}
+RD_DOCS = ['<t:root xmlns:t="urn:c09r"%s>%s</t:root>' % (at, body)
+           for at in ('', ' p="1"', ' q="2"', ' p="1" q="x"')
+           for body in ('<t:a>xy</t:a>', '<t:a>xyz</t:a>', '<t:a>x</t:a><t:b>1</t:b>', '<t:a>x</t:a><t:g>1</t:g>', '<t:a>x</t:a><t:g>1</t:g><t:h>2</t:h>',
+                        '<t:a>xyzuvw</t:a><t:g>1</t:g><t:h>2</t:h><t:b>3</t:b>', '<t:a>x</t:a><t:g>1</t:g><t:h>2</t:h><t:b>3</t:b>')]
+RD_SPELL = ['base.xsd', './base.xsd', 'x/../base.xsd', ' base.xsd', 'base.xsd ', '\n      base.xsd\n    ', 'ABS', 'URL']
+
+
+def rd_files(case, d):
+    """the files of one arrangement: main redefines / overrides some components of the base schema"""
+    tag = case['kind']
+    comps = (RD_REDEF if tag == 'redefine' else RD_OVER)
+    loc = case['spelling']
+    if loc == 'ABS':
+        loc = os.path.join(d, 'base.xsd')
+    elif loc == 'URL':
+        loc = 'file://' + os.path.join(d, 'base.xsd')
+    main = '%s<xs:%s schemaLocation="%s">%s</xs:%s><xs:element name="other" type="t:ST"/></xs:schema>' % (
+        RD_HEAD, tag, loc, ''.join(comps[n] for n in case['redefs']), tag)
+    order = case['order']
+    files = {'main.xsd': main, 'x/.keep': ''}
+    split = case['split']
+    if split == 'single':
+        files['base.xsd'] = RD_HEAD + ''.join(RD_BASE[n] for n in order) + '</xs:schema>'
+    elif split == 'include':       # the declarations of the redefined schema sit in a document that base.xsd includes
+        cut = case['cut']
+        files['base.xsd'] = RD_HEAD + '<xs:include schemaLocation="parts.xsd"/>' + ''.join(RD_BASE[n] for n in order[:cut]) + '</xs:schema>'
+        files['parts.xsd'] = RD_HEAD + ''.join(RD_BASE[n] for n in order[cut:]) + '</xs:schema>'
+    else:                           # nested include
+        cut = case['cut']
+        files['base.xsd'] = RD_HEAD + '<xs:include schemaLocation="p1.xsd"/>' + ''.join(RD_BASE[n] for n in order[:cut]) + '</xs:schema>'
+        files['p1.xsd'] = RD_HEAD + '<xs:include schemaLocation="p2.xsd"/>' + '</xs:schema>'
+        files['p2.xsd'] = RD_HEAD + ''.join(RD_BASE[n] for n in order[cut:]) + '</xs:schema>'
+    return files
+
+
+def subject_redefine(case):
+    import warnings
+    import xmlschema
+    warnings.simplefilter('ignore')
+    d = os.path.join(str(common.BUILD), 'tmp', 'c09_rd_%d_%d' % (os.getpid(), case['n']))
+    shutil.rmtree(d, ignore_errors=True)
+    cls = xmlschema.XMLSchema11 if case['version'] == '1.1' else xmlschema.XMLSchema10
+    try:
+        for rel, text in rd_files(case, d).items():
+            p = os.path.join(d, rel)
+            os.makedirs(os.path.dirname(p), exist_ok=True)
+            with open(p, 'w') as f:
+                f.write(text)
+        try:
+            s = cls(os.path.join(d, 'main.xsd'))
+        except Exception as e:  # noqa
+            return {'exc': common.exc_class(e) + ': ' + ' '.join(str(e).split())[:160]}
+        out = observe(s, RD_DOCS)
+        t = s.maps.types['{urn:c09r}T']
+        out['globals']['content of T'] = [e.local_name for e in t.content.iter_elements()]
+        out['globals']['attributes of T'] = sorted(str(k) for k in t.attributes)
+        return out
+    finally:
+        shutil.rmtree(d, ignore_errors=True)
+
+
+def check_redefine(ctx):
+    rng = ctx.rng
+    names = list(RD_BASE)
+    cases = []
+    variants = [('redefine', '1.0'), ('redefine', '1.1'), ('override', '1.1')]
+    subsets = [['T'], ['ST'], ['G'], ['AG'], ['T', 'ST'], ['G', 'AG', 'ST'], ['T', 'ST', 'G', 'AG']]
+    for kind, version in variants:
+        for redefs in (subsets if not ctx.quick() else rng.sample(subsets, 3)):
+            ref = {'kind': kind, 'version': version, 'redefs': redefs, 'spelling': 'base.xsd', 'order': names, 'split': 'single', 'cut': 0}
+            group = [ref]
+            for sp in RD_SPELL[1:]:
+                group.append(dict(ref, spelling=sp))
+            for _ in range(3 if ctx.quick() else 8):
+                order = names[:]
+                rng.shuffle(order)
+                group.append(dict(ref, order=order, split=rng.choice(['single', 'include', 'nested']), cut=rng.randrange(0, len(names)),
+                                  spelling=rng.choice(RD_SPELL)))
+            # every redefined component in the included part
+            order = [n for n in names if n not in redefs] + redefs
+            group.append(dict(ref, order=order, split='include', cut=len(names) - len(redefs)))
+            group.append(dict(ref, order=order, split='nested', cut=len(names) - len(redefs)))
+            cases.append(group)
+    flat = [dict(c, n=i) for i, c in enumerate(c for g in cases for c in g)]
+    impl = common.pool_map(subject_redefine, flat, procs=min(common.NPROC, 8))
+    k = 0
+    for group in cases:
+        res = impl[k:k + len(group)]
+        k += len(group)
+        ref_case, ref = group[0], res[0]
+        what = 'xs:%s of %s (XSD %s)' % (ref_case['kind'], '+'.join(ref_case['redefs']), ref_case['version'])
+        if 'exc' in ref or 'harness_exception' in ref:
+            ctx.violation('%s: the reference arrangement does not build: %s' % (what, ref.get('exc') or ref.get('harness_exception')),
+                          {'kind': 'redefine', 'case': ref_case, 'impl': ref}, no_input=True)
+            continue
+        for c, r in zip(group[1:], res[1:]):
+            arr = 'location %r, base %s%s' % (c['spelling'], c['split'], '' if c['split'] == 'single' else ' (%s in the included part)' % '+'.join(c['order'][c['cut']:]))
+            ctx.count(('redef', json.dumps(c, sort_keys=True)), nontrivial=True)
+            ctx.dist('arrangement', 'redefine/override: ' + ('spelling' if c['split'] == 'single' and c['order'] == names else c['split']))
+            rep = {'kind': 'redefine', 'case': c, 'reference': ref_case, 'files': rd_files(c, '<dir>')}
+            if 'exc' in r or 'harness_exception' in r:
+                ctx.violation('%s: %s fails: %s' % (what, arr, r.get('exc') or r.get('harness_exception')), dict(rep, impl=r))
+            elif r['globals'] != ref['globals']:
+                diff = {kk: v for kk, v in r['globals'].items() if v != ref['globals'][kk]}
+                ctx.violation('%s: %s gives other global components: %s (reference %s)'
+                              % (what, arr, str(diff)[:150], str({kk: ref['globals'][kk] for kk in diff})[:150]), rep)
+            elif r['probes'] != ref['probes']:
+                i = next(i for i, (a, b) in enumerate(zip(r['probes'], ref['probes'])) if a != b)
+                ctx.violation('%s: %s: %s gives %s, reference arrangement %s' % (what, arr, RD_DOCS[i], str(r['probes'][i])[:100], str(ref['probes'][i])[:100]), rep)
+
+
 def gen(ctx):
     import random
     rng = ctx.rng
@@ -400,11 +536,12 @@ def run(ctx):
                     'location spellings; evaluations = arrangements compared with the original; non-trivial = every arrangement')
         evaluate(ctx, gen(ctx))
         check_corpus(ctx)
+        check_redefine(ctx)
     finally:
         cleanup()
     ctx.assumptions = ['component construction is a deterministic function of a declaration and of the components it references '
                        '(section variable mk of Staged.v); the metamorphic runs probe it',
-                       'redefine / override arrangements are not permuted (order matters there by specification)']
+                       'redefine / override: a fixed base schema (type, simple type, group, attribute group, element) whose components are redefined / overridden in subsets; the arrangements vary the spelling of the schemaLocation (relative, dotted, detour, padded with whitespace, absolute, file URL), the order of the base declarations and their split into (nested) includes of the base document']
 
 
 def replay(ctx, case):
@@ -412,6 +549,8 @@ def replay(ctx, case):
     try:
         if case.get('kind') == 'corpus':
             check_corpus(ctx)
+        elif case.get('kind') == 'redefine':
+            check_redefine(ctx)
         else:
             evaluate(ctx, [case['case']])
     finally:
